@@ -264,6 +264,21 @@ def gen_module(rng, max_items=6, want_imports=True, final_newline=None, prologue
                 text = text[:-1]
             if rng.random() < 0.15 and text and "\n" in text:
                 text += "\n# last comment no newline"
+        r_layout = rng.random()
+        if r_layout < 0.012 and "\n" in text:
+            # a lone CR as a line break (the compiler accepts CR, CRLF and LF)
+            idx = [i for i, ch in enumerate(text) if ch == "\n" and text[i + 1:i + 2] != "\n"]   # (no CRLF: that is D62's subject)
+            if idx:
+                k0 = rng.choice(idx)
+                text = text[:k0] + "\r" + text[k0 + 1:] if rng.random() < 0.6 else text.replace("\n", "\r")
+        elif r_layout < 0.024 and "\n" in text:
+            # a backslash-newline directly in front of a statement
+            lines0 = text.split("\n")
+            cand0 = [i for i, l in enumerate(lines0) if l and not l[0].isspace() and not l.startswith(("#", "@", "'", '"'))]
+            if cand0:
+                k0 = rng.choice(cand0)
+                lines0.insert(k0, "\\")
+                text = "\n".join(lines0)
         try:
             compile(text + ("\n" if not text.endswith("\n") else ""), "<gen>", "exec", dont_inherit=True)
         except (SyntaxError, ValueError):
